@@ -38,9 +38,12 @@ impl SpanObs for SimpleSpan<usize> {
         (self.start, self.end)
     }
 }
+/// spans with a context: the context doubles as the re-basing offset applied by `map_span` in the
+/// harness (with_context uses 0), so that observations are comparable across input kinds
 impl SpanObs for SimpleSpan<usize, i64> {
     fn se(&self) -> (usize, usize) {
-        (self.start, self.end)
+        let off = self.context as usize;
+        (self.start.wrapping_sub(off), self.end.wrapping_sub(off))
     }
     fn cx(&self) -> Option<i64> {
         Some(self.context)
